@@ -28,6 +28,7 @@ import Kap.Proofs.C05Json
 import Kap.Proofs.C05Len
 import Kap.Proofs.C05Parse
 import Kap.Proofs.C05Pos
+import Kap.Proofs.C05Tags
 import Kap.Proofs.C05PTerm
 import Kap.Proofs.C05Eval
 import Kap.Spec.C05
@@ -735,5 +736,40 @@ theorem null_accepting_regex_traps :
 example : decodeJ false false 3
     (.ocons "typeOf" (.str "func") (.ocons "args" (.acons (.ocons "typeOf" (.str "star") .onil) .anil) .onil)) =
     some (.func (.acons (.leaf "star") .anil)) := by decide
+
+/-! ### Tag sets: the nodes that write into a copy of a point's tags (default().tag, eval().tags, alert levelTag/idTag,
+sideload().tag, loopback) — model `Kap.C05.Tags`, tied by the `tagscopy` op (the real `models.Tags.Copy` on nil /
+empty / populated maps followed by an assignment) and, end to end, by `live <tag node> <notags|emptytagval|hastarget>`. -/
+
+/-- **the copy of ANY tag set accepts a write**: `Tags.Copy` of the nil map, of an empty map, of any map is an
+allocated map, so the one-write nodes never assign into a nil map — whatever tags the data point carries. -/
+theorem copied_tags_accept_a_write (m : Tags.GoMap) (k v : String) : ((Tags.copy m).set k v).isSome = true := rfl
+
+/-- the copy holds exactly the bindings of the original (reads agree on every key) -/
+theorem copy_keeps_every_binding (m : Tags.GoMap) (k : String) : (Tags.copy m).get k = m.get k := rfl
+
+/-- **`default()` never panics on a point's tag set**: for every incoming tag map (nil, empty, anything) and every
+list of tag defaults the tag loop of `setDefaults` returns a map. -/
+theorem default_tags_never_trap (tags : Tags.GoMap) (ds : List (String × String)) :
+    (Tags.defaultTags Tags.copy tags ds).isSome = true :=
+  Tags.setDefaultTags_copy_isSome tags ds tags false (by intro h; cases h)
+
+/-- … and what it returns is the defaulting it promises: a defaulted key reads as the FIRST default listed for
+it when the point had no (or an empty) value, every key the point had keeps its value. -/
+theorem default_tags_keep_present_values (tags : Tags.GoMap) (ds : List (String × String)) (k : String)
+    (hk : tags.get k ≠ "") :
+    ∀ m, Tags.defaultTags Tags.copy tags ds = some m → m.get k = tags.get k :=
+  fun m h => Tags.setDefaultTags_keeps tags k hk ds tags false m h rfl
+
+/-- Counterexample for the CLASS (a copy that answers nil for an empty tag set — "no allocation for untagged
+series"): a point without tags kills `default().tag('t','v')` and every one-write node. -/
+theorem lazy_copy_traps_on_untagged_point :
+    Tags.defaultTags Tags.copyLazy (.mk []) [("t", "v")] = none ∧
+    Tags.defaultTags Tags.copyLazy .nil [("t", "v")] = none ∧
+    (Tags.copyLazy (.mk [])).set "lvl" "x" = none ∧
+    -- a tagged point hides it
+    (Tags.defaultTags Tags.copyLazy (.mk [("host", "a")]) [("t", "v")]).isSome = true := by decide
+
+example : Tags.defaultTags Tags.copy (.mk []) [("t", "v"), ("host", "h")] = some (.mk [("host", "h"), ("t", "v")]) := by decide
 
 end Kap.Props.C05
